@@ -113,11 +113,19 @@ def classify(case, r):
         if impl == model:
             return 'agree', ''
         return 'disagree', 'impl=%s model=%s' % (impl[:300], model[:300])
+    mp = r.get('model_parse') or ''
     if r.get('compile', 'ok') != 'ok':
         c = r['compile']
         if c.startswith('P ') or c == 'H':
             return 'impl-panic' if c.startswith('P ') else 'impl-hang', 'Compile: ' + c[:200]
+        # the model's parser on the same text: it must reject it too, with the same error tuple
+        if mp.startswith('A '):
+            return 'disagree', 'Compile fails (%s) but the model parses the text: %s' % (c[:120], mp[:200])
+        if mp.startswith('E ') and c.startswith('E ') and mp != c:
+            return 'disagree', 'Compile error %s, model parse error %s' % (c[:150], mp[:150])
         return 'compile-error', c
+    if mp.startswith('E '):
+        return 'disagree', 'Compile accepts the text, the model parser rejects it: %s' % mp[:200]
     if impl.startswith('P '):
         return 'impl-panic', impl
     if impl == 'H':
